@@ -17,6 +17,8 @@ import (
 	"github.com/q191201771/lal/pkg/httpts"
 	"github.com/q191201771/lal/pkg/logic"
 	"github.com/q191201771/lal/pkg/rtmp"
+	"github.com/q191201771/lal/pkg/rtsp"
+	"github.com/q191201771/lal/pkg/sdp"
 	"github.com/q191201771/naza/pkg/nazalog"
 
 	"lalverif/proj"
@@ -36,7 +38,8 @@ import (
 // at quiescence.
 
 type stCfg struct {
-	Proto   string `json:"proto"` // rtmp | flv | wsflv | ts | wsts
+	Proto   string `json:"proto"` // rtmp | rtmpmw | flv | wsflv | ts | wsts | rtsp | wsrtsp
+	Two     bool   `json:"two"`   // a second stream (another Group) under one logic.ServerManager
 	N       int    `json:"n"`
 	BoundUs int64  `json:"boundUs"`
 }
@@ -69,6 +72,9 @@ type gateConn struct {
 	open     bool
 	waiting  *gWrite
 	wire     [][]byte
+	wireEl   []int // queue element each write belongs to
+	curEl    int
+	everDl   bool
 	last     time.Time // completion time of the last write
 	nseen    int       // writes already reported
 	closed   bool
@@ -92,8 +98,13 @@ func (c *gateConn) Write(b []byte) (int, error) {
 		return 0, net.ErrClosed
 	}
 	cp := append([]byte{}, b...)
+	if !c.everDl {
+		c.curEl++ // no per-element deadline call on this connection: it only uses Write, one write per element
+	}
+	el := c.curEl
 	if c.open {
 		c.wire = append(c.wire, cp)
+		c.wireEl = append(c.wireEl, el)
 		c.last = time.Now()
 		c.mu.Unlock()
 		return len(b), nil
@@ -109,6 +120,7 @@ func (c *gateConn) Write(b []byte) (int, error) {
 		return 0, err
 	}
 	c.wire = append(c.wire, cp)
+	c.wireEl = append(c.wireEl, el)
 	c.last = time.Now()
 	return len(b), nil
 }
@@ -170,9 +182,13 @@ func (c *gateConn) LocalAddr() net.Addr               { return memAddr("local") 
 func (c *gateConn) RemoteAddr() net.Addr              { return memAddr("10.0.0.2:" + c.name) }
 func (c *gateConn) SetDeadline(t time.Time) error     { return nil }
 func (c *gateConn) SetReadDeadline(t time.Time) error { return nil }
+// SetWriteDeadline: naza's connection arms the deadline once per queue element, before the write (Write)
+// or writes (Writev, one per buffer) of that element: the call marks the element boundaries.
 func (c *gateConn) SetWriteDeadline(t time.Time) error {
 	c.mu.Lock()
 	c.dl = t
+	c.everDl = true
+	c.curEl++
 	c.mu.Unlock()
 	return nil
 }
@@ -325,6 +341,27 @@ func posCodeId(b []byte) (id int, at int) {
 	return 0, -1
 }
 
+// posCodeAny finds two consecutive code groups (id, block k)(id, block k+1) anywhere in b.
+func posCodeAny(b []byte) int {
+	for i := 0; i+12 <= len(b); i++ {
+		if b[i+6] == b[i] && b[i+7] == b[i+1] && (b[i] != 0 || b[i+1] != 0) {
+			k0 := uint32(b[i+2])<<24 | uint32(b[i+3])<<16 | uint32(b[i+4])<<8 | uint32(b[i+5])
+			k1 := uint32(b[i+8])<<24 | uint32(b[i+9])<<16 | uint32(b[i+10])<<8 | uint32(b[i+11])
+			if k1 == k0+1 && k0 < 1<<20 {
+				return int(b[i])<<8 | int(b[i+1])
+			}
+		}
+	}
+	return 0
+}
+
+// interleaved reports whether b is exactly one '$'-framed interleaved packet (RFC 2326 10.12).
+func interleaved(b []byte) bool {
+	return len(b) >= 4 && b[0] == '$' && len(b) == 4+(int(b[2])<<8|int(b[3]))
+}
+
+func isWsProto(proto string) bool { return proto == "wsflv" || proto == "wsts" || proto == "wsrtsp" }
+
 func tsAligned(b []byte) bool {
 	if len(b) == 0 || len(b)%188 != 0 {
 		return false
@@ -347,7 +384,7 @@ func classifyInner(proto string, b []byte) stPart {
 		return p
 	}
 	switch proto {
-	case "rtmp":
+	case "rtmp", "rtmpmw":
 		ms, inc := proj.ReadRtmpMessages(b, 4096)
 		if !inc && len(ms) >= 1 {
 			p.K = "msg"
@@ -376,6 +413,11 @@ func classifyInner(proto string, b []byte) stPart {
 			p.K = "ts"
 			p.Id, _ = posCodeId(b)
 		}
+	case "rtsp", "wsrtsp":
+		if interleaved(b) {
+			p.K = "rtp"
+			p.Id = posCodeAny(b[4:])
+		}
 	}
 	return p
 }
@@ -385,17 +427,14 @@ func classify(proto string, b []byte) stPart {
 		return stPart{K: "http", Len: len(b)}
 	}
 	in := classifyInner(proto, b)
-	if in.K != "frag" || (proto != "wsflv" && proto != "wsts") {
-		if (proto == "wsflv" || proto == "wsts") && in.K == "empty" {
-			return in
-		}
+	if in.K != "frag" || !isWsProto(proto) {
 		return in
 	}
 	f, decl := proj.ParseWsHeader(b)
 	if f == nil || f.Fin != 1 || f.Rsv != 0 || f.Opcode != 2 || f.Masked != 0 {
 		return in
 	}
-	if len(b) == f.HdrSize {
+	if len(b) == f.HdrSize && decl > 0 {
 		return stPart{K: "wsh", Len: decl}
 	}
 	if len(b) == f.HdrSize+decl {
@@ -438,7 +477,7 @@ func projectStream(proto string, all []byte, sent map[int]*stSent) (ids []int, l
 			bad = append(bad, "header_differs")
 		}
 	}
-	if proto == "rtmp" {
+	if proto == "rtmp" || proto == "rtmpmw" {
 		ms, inc := proj.ReadRtmpMessages(all, 4096)
 		if inc {
 			left = 1
@@ -452,13 +491,52 @@ func projectStream(proto string, all []byte, sent map[int]*stSent) (ids []int, l
 	if len(b) == 0 {
 		return
 	}
+	if proto == "rtsp" || proto == "wsrtsp" {
+		if proto == "wsrtsp" {
+			frames, pl, l := proj.Deframe(b)
+			for _, f := range frames {
+				if f.Fin != 1 || f.Rsv != 0 || f.Opcode != 2 || f.Masked != 0 {
+					bad = append(bad, "ws_bad_frame_header")
+					break
+				}
+			}
+			if l != 0 {
+				bad = append(bad, "ws_partial_or_garbled_frame")
+				left = l
+			}
+			b = pl
+		}
+		// RFC 2326 10.12: '$' channel length(2) packet
+		for pos := 0; pos < len(b); {
+			if b[pos] != '$' {
+				bad = append(bad, "interleaved_frame_lost")
+				left += len(b) - pos
+				break
+			}
+			if pos+4 > len(b) || pos+4+(int(b[pos+2])<<8|int(b[pos+3])) > len(b) {
+				bad = append(bad, "interleaved_partial_frame")
+				left += len(b) - pos
+				break
+			}
+			n := int(b[pos+2])<<8 | int(b[pos+3])
+			pkt := b[pos+4 : pos+4+n]
+			if n > 0 && (n < 8 || pkt[0]>>6 != 2) {
+				bad = append(bad, "interleaved_not_rtp")
+			}
+			if id := posCodeAny(pkt); id != 0 {
+				ids = append(ids, id)
+			}
+			pos += 4 + n
+		}
+		return
+	}
 	k := bytes.Index(b, []byte("\r\n\r\n"))
 	if k < 0 || !bytes.HasPrefix(b, []byte("HTTP/1.1 ")) {
 		bad = append(bad, "no_http_response_header")
 		return
 	}
 	b = b[k+4:]
-	if proto == "wsflv" || proto == "wsts" {
+	if isWsProto(proto) {
 		frames, pl, l := proj.Deframe(b)
 		for _, f := range frames {
 			if f.Fin != 1 || f.Rsv != 0 || f.Opcode != 2 || f.Masked != 0 {
@@ -551,7 +629,32 @@ type stCons struct {
 	rs   *rtmp.ServerSession
 	fs   *httpflv.SubSession
 	ts   *httpts.SubSession
+	rsub *rtsp.SubSession
+	rcmd *rtsp.ServerCommandSession
 }
+
+// null hands the session a unit without media (no bytes, or the protocol's empty frame) through its own
+// write path: it occupies the connection's writer like any other unit.
+func (c *stCons) null() {
+	switch {
+	case c.rs != nil:
+		_ = c.rs.Write([]byte{})
+	case c.fs != nil:
+		c.fs.Write([]byte{})
+	case c.ts != nil:
+		c.ts.Write([]byte{})
+	case c.rsub != nil:
+		_ = c.rsub.WriteInterleavedPacket([]byte{}, 0)
+	}
+}
+
+type rtspNullObserver struct{}
+
+func (rtspNullObserver) OnNewRtspPubSession(session *rtsp.PubSession) error { return nil }
+func (rtspNullObserver) OnNewRtspSubSessionDescribe(session *rtsp.SubSession) (ok bool, sdp []byte) {
+	return false, nil
+}
+func (rtspNullObserver) OnNewRtspSubSessionPlay(session *rtsp.SubSession) error { return nil }
 
 func init() { Registry["stall"] = stallDriver }
 
@@ -594,50 +697,122 @@ func stallDriver(env *Env) error {
 	})
 }
 
-var stNames = []string{"s1", "s2", "h"}
+var stNames = []string{"h", "hb", "s1", "s2"} // healthy ones first: they show which writes form a unit together
+
+var stManagers = map[int]*logic.ServerManager{}
+
+const stConf = `{"conf_version":"v0.4.1","rtmp":{"enable":true,"gop_num":0,"merge_write_size":%d},
+ "httpflv":{"enable":true,"gop_num":0},"httpts":{"enable":true,"gop_num":0},
+ "rtsp":{"enable":true,"out_wait_key_frame_flag":true},
+ "log":{"level":5,"filename":"","is_to_stdout":false,"assert_behavior":1}}`
 
 func runStallScenario(sc *stScenario, seed int64, skipBlocked bool) (evs []M, slow bool, blockedSeen bool, err error) {
 	proto := sc.Cfg.Proto
-	ws := proto == "wsflv" || proto == "wsts"
-	cfg := &logic.Config{}
-	cfg.RtmpConfig.Enable = true
-	cfg.HttpflvConfig.Enable = proto == "flv" || proto == "wsflv"
-	cfg.HttptsConfig.Enable = proto == "ts" || proto == "wsts"
-	stream := fmt.Sprintf("b%d", sc.Sc)
-	g := logic.NewGroup("live", stream, cfg, logic.GroupOption{}, groupObserver{})
+	ws := isWsProto(proto)
+	isRtsp := proto == "rtsp" || proto == "wsrtsp"
+	mw := 0
+	if proto == "rtmpmw" {
+		mw = 3000
+	}
+	streamA, streamB := fmt.Sprintf("b%d", sc.Sc), fmt.Sprintf("o%d", sc.Sc)
+	// either a bare Group, or two streams under one ServerManager (no listeners are started)
+	var g *logic.Group
+	var sm *logic.ServerManager
+	if sc.Cfg.Two {
+		// one ServerManager per configuration for the whole run (every scenario has its own stream names; a
+		// ServerManager leaves goroutines behind when disposed, which would slow every goroutine dump down)
+		if sm = stManagers[mw]; sm == nil {
+			sm = logic.NewServerManager(func(option *logic.Option) {
+				option.ConfRawContent = []byte(fmt.Sprintf(stConf, mw))
+			})
+			stManagers[mw] = sm
+		}
+	} else {
+		cfg := &logic.Config{}
+		cfg.RtmpConfig.Enable = true
+		cfg.RtmpConfig.MergeWriteSize = mw
+		cfg.HttpflvConfig.Enable = proto == "flv" || proto == "wsflv"
+		cfg.HttptsConfig.Enable = proto == "ts" || proto == "wsts"
+		cfg.RtspConfig.Enable = isRtsp
+		cfg.RtspConfig.OutWaitKeyFrameFlag = true
+		g = logic.NewGroup("live", streamA, cfg, logic.GroupOption{}, groupObserver{})
+	}
+	groupOf := func(stream string) *logic.Group {
+		if sm != nil {
+			return sm.GetGroup("live", stream)
+		}
+		return g
+	}
 	cons := map[string]*stCons{}
 	sent := map[int]*stSent{}
-	var pub *rtmp.ServerSession
+	var pub, pubB *rtmp.ServerSession
 	tick := uint32(0)
 	nextId := 1
+	nstep := 0
 	emit := func(m M) { evs = append(evs, m) }
-	emit(M{"ev": "reset", "sc": sc.Sc, "cfgId": sc.CfgId, "proto": proto, "ws": ws, "n": sc.Cfg.N, "boundUs": sc.Cfg.BoundUs})
+	emit(M{"ev": "reset", "sc": sc.Sc, "cfgId": sc.CfgId, "proto": proto, "ws": ws, "enq": isRtsp, "dl": !isRtsp,
+		"two": sc.Cfg.Two, "n": sc.Cfg.N, "boundUs": sc.Cfg.BoundUs})
 
-	defer func() {
-		for _, c := range cons {
-			c.conn.setOpen(true)
-			switch {
-			case c.rs != nil:
+	delSub := func(c *stCons, stream string) {
+		switch {
+		case c.rs != nil:
+			if sm != nil {
+				sm.OnDelRtmpSubSession(c.rs)
+			} else {
 				g.DelRtmpSubSession(c.rs)
-				c.rs.Dispose()
-			case c.fs != nil:
+			}
+			c.rs.Dispose()
+		case c.fs != nil:
+			if sm != nil {
+				sm.OnDelHttpflvSubSession(c.fs)
+			} else {
 				g.DelHttpflvSubSession(c.fs)
-				c.fs.Dispose()
-			case c.ts != nil:
+			}
+			c.fs.Dispose()
+		case c.ts != nil:
+			if sm != nil {
+				sm.OnDelHttptsSubSession(c.ts)
+			} else {
 				g.DelHttptsSubSession(c.ts)
-				c.ts.Dispose()
+			}
+			c.ts.Dispose()
+		case c.rsub != nil:
+			if sm != nil {
+				sm.OnDelRtspSubSession(c.rsub)
+			} else {
+				g.DelRtspSubSession(c.rsub)
+			}
+			c.rsub.Dispose()
+			c.rcmd.Dispose()
+		}
+	}
+	defer func() {
+		for n, c := range cons {
+			c.conn.setOpen(true)
+			st := streamA
+			if n == "hb" {
+				st = streamB
+			}
+			delSub(c, st)
+		}
+		for _, p := range []*rtmp.ServerSession{pub, pubB} {
+			if p != nil {
+				if sm != nil {
+					sm.OnDelRtmpPubSession(p)
+				} else {
+					g.DelRtmpPubSession(p)
+				}
+				p.Dispose()
 			}
 		}
-		if pub != nil {
-			g.DelRtmpPubSession(pub)
-			pub.Dispose()
+		if sm != nil {
+			sm.VerifTick(1) // removes the groups of this scenario, now without sessions
 		}
 		if e := quiesce(); e != nil && err == nil {
 			err = e
 		}
 	}()
 
-	// snapshot: per consumer the part blocked in the gate, the parts written since the last snapshot, closed
 	pieces := map[[20]byte]stPart{}
 	one := func(b []byte) stPart {
 		p := classifyU(proto, b)
@@ -648,16 +823,26 @@ func runStallScenario(sc *stScenario, seed int64, skipBlocked bool) (evs []M, sl
 		}
 		return p
 	}
+	// snapshot: per consumer the part blocked in the gate, the parts written since the last snapshot, closed;
+	// for the healthy consumers also how their writes group into queue elements
 	snap := func(m M) {
-		infl, wire, closed := M{}, M{}, M{}
-		for _, n := range []string{"h", "s1", "s2"} { // h first: it shows which writes form a unit together
+		infl, wire, closed, el := M{}, M{}, M{}, M{}
+		for _, n := range stNames {
 			c := cons[n]
-			fl, w := []stPart{}, []stPart{}
+			fl, w, sizes := []stPart{}, []stPart{}, []int{}
 			cl := false
 			if c != nil {
 				c.conn.mu.Lock()
-				if n == "h" {
+				if n == "h" || n == "hb" {
 					w = groupPieces(proto, c.conn.wire[c.conn.nseen:], pieces)
+					last := -1
+					for _, e := range c.conn.wireEl[c.conn.nseen:] {
+						if e != last {
+							sizes = append(sizes, 0)
+							last = e
+						}
+						sizes[len(sizes)-1]++
+					}
 				} else {
 					if c.conn.waiting != nil {
 						fl = append(fl, one(c.conn.waiting.b))
@@ -671,14 +856,63 @@ func runStallScenario(sc *stScenario, seed int64, skipBlocked bool) (evs []M, sl
 				c.conn.mu.Unlock()
 			}
 			infl[n], wire[n], closed[n] = fl, w, cl
+			if n == "h" || n == "hb" {
+				el[n] = sizes
+			}
 		}
-		m["infl"], m["wire"], m["closed"] = infl, wire, closed
+		m["infl"], m["wire"], m["closed"], m["el"] = infl, wire, closed, el
+		if _, ok := m["primed"]; !ok {
+			m["primed"] = M{"s1": []stPart{}, "s2": []stPart{}}
+		}
 		emit(m)
+	}
+	// prime keeps the writer goroutine of every stalled consumer that is idle busy with a null unit, so that the
+	// burst of the next call meets a writer blocked in the socket (deterministic) instead of one that is just
+	// waking up (a race between two goroutines).  Some steps are left unprimed on purpose.
+	prime := func(only string) (M, error) {
+		pr := M{"s1": []stPart{}, "s2": []stPart{}}
+		nstep++
+		if proto == "wsrtsp" || (sc.Sc+nstep)%4 == 0 {
+			return pr, nil
+		}
+		did := map[string]bool{}
+		for _, n := range []string{"s1", "s2"} {
+			c := cons[n]
+			if c == nil || (only != "" && only != n) {
+				continue
+			}
+			c.conn.mu.Lock()
+			idle := !c.conn.open && !c.conn.closed && c.conn.waiting == nil
+			c.conn.mu.Unlock()
+			if idle {
+				c.null()
+				did[n] = true
+			}
+		}
+		if len(did) == 0 {
+			return pr, nil
+		}
+		if e := quiesce(); e != nil {
+			return pr, e
+		}
+		for _, n := range []string{"s1", "s2"} {
+			if c := cons[n]; c != nil && did[n] {
+				c.conn.mu.Lock()
+				if w := c.conn.waiting; w != nil && !c.conn.open {
+					if p := one(w.b); p.Id == 0 && len(w.b) <= 8 {
+						pr[n] = []stPart{p}
+					}
+				}
+				c.conn.mu.Unlock()
+			}
+		}
+		return pr, nil
 	}
 	// watched runs one call into lal on its own goroutine and waits until it has returned and the write
 	// loops are quiescent, or until the call is parked for good: its goroutine waits on a channel or a
 	// lock while every write loop is parked as well, so nothing in the process can wake it (no timer).
-	watched := func(fn func()) (blocked bool, callUs, latUs int64, e error) {
+	// latUs: when the healthy consumer hn had the last byte this call handed to it.
+	watched := func(hn string, fn func()) (blocked bool, callUs, latUs int64, e error) {
 		done := make(chan struct{})
 		t0 := time.Now()
 		var t1 time.Time
@@ -732,7 +966,7 @@ func runStallScenario(sc *stScenario, seed int64, skipBlocked bool) (evs []M, sl
 			return
 		}
 		callUs = t1.Sub(t0).Microseconds()
-		if h := cons["h"]; h != nil {
+		if h := cons[hn]; h != nil {
 			h.conn.mu.Lock()
 			if len(h.conn.wire) > h.conn.nseen {
 				latUs = h.conn.last.Sub(t0).Microseconds()
@@ -741,8 +975,7 @@ func runStallScenario(sc *stScenario, seed int64, skipBlocked bool) (evs []M, sl
 		}
 		return
 	}
-
-	publish := func(t string, sz int) (blocked bool, callUs, latUs int64, e error) {
+	build := func(t string, sz int) base.RtmpMsg {
 		id := nextId
 		nextId++
 		m := &AMsg{Id: id, T: t, Hv: 1, Ha: 2}
@@ -756,28 +989,144 @@ func runStallScenario(sc *stScenario, seed int64, skipBlocked bool) (evs []M, sl
 		if sz > 0 {
 			n = sz + (id*3)%50 // units well above any piece size a session might cut its writes into
 		}
+		if isRtsp && m.T == "aud" && n > 1200 {
+			n = 700 + id%300 // an AAC frame travels in one RTP packet
+		}
 		msg := BuildMsg(m, n, uint32(40*id))
 		s := &stSent{msg: msg.Clone(), woSdf: msg.Payload, body: n}
 		if m.T == "meta" && id%2 == 1 {
 			s.woSdf = msg.Payload[16:]
 		}
 		sent[id] = s
-		return watched(func() { g.OnReadRtmpAvMsg(msg) })
+		return msg
+	}
+	publish := func(stream, hn, t string, sz int) (blocked bool, callUs, latUs int64, e error) {
+		msg := build(t, sz)
+		return watched(hn, func() {
+			if gg := groupOf(stream); gg != nil {
+				gg.OnReadRtmpAvMsg(msg)
+			}
+		})
+	}
+	addPub := func(stream string) (*rtmp.ServerSession, func()) {
+		p := rtmp.NewServerSession(nullObserver{}, NewMemConn("pub"))
+		return p, func() {
+			if sm != nil {
+				p.VerifSetIdentity("live", stream, "", true)
+			}
+		}
+	}
+	join := func(n, stream string, size int) error {
+		c := &stCons{name: n, conn: newGateConn(n)}
+		switch proto {
+		case "rtmp", "rtmpmw":
+			c.rs = rtmp.NewServerSession(nullObserver{}, c.conn)
+			old := rtmp.VerifSetWChanSize(size)
+			if sm != nil {
+				c.rs.VerifSetIdentity("live", stream, "", false)
+			}
+			c.rs.VerifStartPlay()
+			rtmp.VerifSetWChanSize(old)
+			if sm != nil {
+				_ = sm.OnNewRtmpSubSession(c.rs)
+			} else {
+				g.AddRtmpSubSession(c.rs)
+			}
+		case "flv", "wsflv":
+			u, _ := base.ParseUrl("http://h/live/"+stream+".flv", 80)
+			httpflv.SubSessionWriteChanSize = size
+			c.fs = httpflv.NewSubSession(c.conn, u, ws, "dGhlIHNhbXBsZSBub25jZQ==")
+			if sm != nil {
+				_ = sm.OnNewHttpflvSubSession(c.fs)
+			} else {
+				g.AddHttpflvSubSession(c.fs)
+			}
+		case "ts", "wsts":
+			u, _ := base.ParseUrl("http://h/live/"+stream+".ts", 80)
+			httpts.SubSessionWriteChanSize = size
+			c.ts = httpts.NewSubSession(c.conn, u, ws, "dGhlIHNhbXBsZSBub25jZQ==")
+			if sm != nil {
+				_ = sm.OnNewHttptsSubSession(c.ts)
+			} else {
+				g.AddHttptsSubSession(c.ts)
+			}
+		case "rtsp", "wsrtsp":
+			// the state a subscriber is in after DESCRIBE, SETUP (interleaved: RTP/AVP/TCP) and PLAY on its
+			// command connection
+			old, ok := stSetRtspWChan(size)
+			if !ok {
+				return fmt.Errorf("rtsp hook VerifSetServerCommandSessionWriteChanSize is not in this tree")
+			}
+			u, _ := base.ParseUrl("rtsp://h/live/"+stream, 554)
+			c.rcmd = rtsp.NewServerCommandSession(rtspNullObserver{}, c.conn, rtsp.ServerAuthConfig{}, ws, "dGhlIHNhbXBsZSBub25jZQ==")
+			stSetRtspWChan(old)
+			c.rsub = rtsp.NewSubSession(u, c.rcmd)
+			var raw []byte
+			if sm != nil {
+				_, raw = sm.OnNewRtspSubSessionDescribe(c.rsub)
+			} else {
+				_, raw = g.HandleNewRtspSubSessionDescribe(c.rsub)
+			}
+			ctx, e := sdp.ParseSdp2LogicContext(raw)
+			if e != nil {
+				return fmt.Errorf("no usable sdp for the rtsp subscriber: %v", e)
+			}
+			c.rsub.InitWithSdp(ctx)
+			if ctx.HasVideoAControl() {
+				_ = c.rsub.SetupWithChannel(ctx.MakeVideoSetupUri(u.Url), 0, 1)
+			}
+			if ctx.HasAudioAControl() {
+				_ = c.rsub.SetupWithChannel(ctx.MakeAudioSetupUri(u.Url), 2, 3)
+			}
+			c.rsub.Stage.Store(rtsp.SubSessionStageReadPlay)
+			if sm != nil {
+				_ = sm.OnNewRtspSubSessionPlay(c.rsub)
+			} else {
+				g.HandleNewRtspSubSessionPlay(c.rsub)
+			}
+		default:
+			return fmt.Errorf("unknown protocol %q", proto)
+		}
+		cons[n] = c
+		return nil
+	}
+	// one call into lal that is not a publish: blocked / duration are observations of the event
+	call := func(ev M, fn func()) (stop bool) {
+		pr, e := prime("")
+		if e != nil {
+			err = e
+			return true
+		}
+		blocked, callUs, _, e := watched("h", fn)
+		if e != nil {
+			err = e
+			return true
+		}
+		ev["blocked"], ev["callUs"], ev["primed"] = blocked, callUs, pr
+		snap(ev)
+		if blocked {
+			blockedSeen = true
+		}
+		return blocked
 	}
 
 	for _, st := range sc.Steps {
 		switch st.Name {
 		case "PubArrive":
-			pub = rtmp.NewServerSession(nullObserver{}, NewMemConn("pub"))
+			p, ident := addPub(streamA)
+			ident()
+			pub = p
 			ok := false
-			blocked, callUs, _, e := watched(func() { ok = g.AddRtmpPubSession(pub) == nil })
-			if e != nil {
-				err = e
-				return
-			}
-			snap(M{"ev": "PubArrive", "ok": ok, "blocked": blocked, "callUs": callUs})
-			if blocked {
-				blockedSeen = true
+			ev := M{"ev": "PubArrive"}
+			stop := call(ev, func() {
+				if sm != nil {
+					ok = sm.OnNewRtmpPubSession(p) == nil
+				} else {
+					ok = g.AddRtmpPubSession(p) == nil
+				}
+			})
+			ev["ok"] = ok
+			if stop {
 				return
 			}
 		case "PubLeave":
@@ -786,56 +1135,68 @@ func runStallScenario(sc *stScenario, seed int64, skipBlocked bool) (evs []M, sl
 			}
 			p0 := pub
 			pub = nil
-			blocked, callUs, _, e := watched(func() { g.DelRtmpPubSession(p0) })
-			if e != nil {
-				err = e
-				return
-			}
+			stop := call(M{"ev": "PubLeave"}, func() {
+				if sm != nil {
+					sm.OnDelRtmpPubSession(p0)
+				} else {
+					g.DelRtmpPubSession(p0)
+				}
+			})
 			p0.Dispose()
-			snap(M{"ev": "PubLeave", "blocked": blocked, "callUs": callUs})
-			if blocked {
-				blockedSeen = true
+			if stop {
 				return
 			}
 		case "Join":
-			for _, n := range stNames {
-				c := &stCons{name: n, conn: newGateConn(n)}
+			for _, n := range []string{"s1", "s2", "h"} {
 				size := sc.Cfg.N
 				if n == "h" {
 					size = 1024
 				}
-				switch proto {
-				case "rtmp":
-					c.rs = rtmp.NewServerSession(nullObserver{}, c.conn)
-					old := rtmp.VerifSetWChanSize(size)
-					c.rs.VerifStartPlay()
-					rtmp.VerifSetWChanSize(old)
-					g.AddRtmpSubSession(c.rs)
-				case "flv", "wsflv":
-					u, _ := base.ParseUrl("http://h/live/"+stream+".flv", 80)
-					httpflv.SubSessionWriteChanSize = size
-					c.fs = httpflv.NewSubSession(c.conn, u, ws, "dGhlIHNhbXBsZSBub25jZQ==")
-					g.AddHttpflvSubSession(c.fs)
-				case "ts", "wsts":
-					u, _ := base.ParseUrl("http://h/live/"+stream+".ts", 80)
-					httpts.SubSessionWriteChanSize = size
-					c.ts = httpts.NewSubSession(c.conn, u, ws, "dGhlIHNhbXBsZSBub25jZQ==")
-					g.AddHttptsSubSession(c.ts)
-				default:
-					return nil, false, false, fmt.Errorf("unknown protocol %q", proto)
+				if err = join(n, streamA, size); err != nil {
+					return
 				}
-				cons[n] = c
+			}
+			if sm != nil {
+				// the other stream: its own publisher (sequence headers sent) and one healthy consumer
+				p, ident := addPub(streamB)
+				ident()
+				if sm.OnNewRtmpPubSession(p) != nil {
+					err = fmt.Errorf("publisher of the other stream refused")
+					return
+				}
+				pubB = p
+				for _, t := range []string{"vsh", "ash"} {
+					msg := build(t, 0)
+					if gg := groupOf(streamB); gg != nil {
+						gg.OnReadRtmpAvMsg(msg)
+					}
+				}
+				if err = join("hb", streamB, 1024); err != nil {
+					return
+				}
 			}
 			if err = quiesce(); err != nil {
 				return
 			}
 			snap(M{"ev": "Join"})
-		case "Publish":
+		case "Publish", "PublishB":
 			t := st.T
 			if t == "" {
 				t = "key"
 			}
-			blocked, callUs, latUs, e := publish(t, st.N)
+			stream, hn := streamA, "h"
+			if st.Name == "PublishB" {
+				if sm == nil {
+					continue
+				}
+				stream, hn = streamB, "hb"
+			}
+			pr, e := prime("")
+			if e != nil {
+				err = e
+				return
+			}
+			blocked, callUs, latUs, e := publish(stream, hn, t, st.N)
 			if e != nil {
 				err = e
 				return
@@ -845,15 +1206,26 @@ func runStallScenario(sc *stScenario, seed int64, skipBlocked bool) (evs []M, sl
 			} else if sc.Cfg.BoundUs > 0 && (callUs > sc.Cfg.BoundUs || latUs > sc.Cfg.BoundUs) {
 				slow = true
 			}
-			snap(M{"ev": "Publish", "id": nextId - 1, "blocked": blocked, "callUs": callUs, "latUs": latUs})
+			snap(M{"ev": st.Name, "id": nextId - 1, "blocked": blocked, "callUs": callUs, "latUs": latUs, "primed": pr})
 			if blocked {
 				return
 			}
+		case "Stat":
+			if sm == nil {
+				continue
+			}
+			if call(M{"ev": "Stat"}, func() { _ = sm.StatAllGroup() }) {
+				return
+			}
 		case "Stall":
+			pr := M{"s1": []stPart{}, "s2": []stPart{}}
 			if c := cons[st.C]; c != nil {
 				c.conn.setOpen(false)
+				if pr, err = prime(st.C); err != nil {
+					return
+				}
 			}
-			snap(M{"ev": "Stall", "c": st.C})
+			snap(M{"ev": "Stall", "c": st.C, "primed": pr})
 		case "Resume":
 			if c := cons[st.C]; c != nil {
 				c.conn.setOpen(true)
@@ -895,12 +1267,20 @@ func runStallScenario(sc *stScenario, seed int64, skipBlocked bool) (evs []M, sl
 		case "Sweep":
 			tick++
 			tk := tick
-			blocked, callUs, _, e := watched(func() { g.Tick(tk) })
+			ev := M{"ev": "Sweep"}
+			blocked, callUs, _, e := watched("h", func() {
+				if sm != nil {
+					sm.VerifTick(tk)
+				} else {
+					g.Tick(tk)
+				}
+			})
 			if e != nil {
 				err = e
 				return
 			}
-			snap(M{"ev": "Sweep", "blocked": blocked, "callUs": callUs})
+			ev["blocked"], ev["callUs"] = blocked, callUs
+			snap(ev)
 			if blocked {
 				blockedSeen = true
 				return
